@@ -310,3 +310,37 @@ Example C05_nonvacuous :
   classify E_simple P_unit (JObj [("parameters", JObj []); ("error", JStr "org.example.E.Busy")])
   = MethodError (RVar 1 []).
 Proof. cbv zeta. repeat split; vm_compute; reflexivity. Qed.
+
+(* ---------------------------------------------------------------- tie to the declarations in the source
+   The shapes the theorems above quantify over for the three declarative envelope types are what
+   serde's derive (and zlink's ReplyError derive) makes of the declarations in /repo's current
+   reply.rs and varlink_service/api.rs (coq/gen/Decls.v, regenerated by translate/decls.py on every
+   run; interpretation in Shapes/DeclTie.v): member names after rename, member types, tag/content,
+   skip_serializing_if / default / skip_serializing / deserialize_with. *)
+From ZV Require gen.Decls Shapes.DeclTie.
+
+Theorem C05_reply_declaration_tie : forall P : shape,
+  DeclTie.interp_struct P Decls.reply_derives Decls.reply_container_attrs Decls.reply_fields
+  = Some (reply_shape P).
+Proof. exact DeclTie.reply_decl_tie. Qed.
+Print Assumptions C05_reply_declaration_tie.
+
+Theorem C05_standard_method_declaration_tie :
+  DeclTie.interp_method_enum Decls.method_container_attrs Decls.method_variants = Some vs_method_shape.
+Proof. exact DeclTie.method_decl_tie. Qed.
+Print Assumptions C05_standard_method_declaration_tie.
+
+Theorem C05_standard_error_declaration_tie :
+  DeclTie.interp_reply_error_enum Decls.error_derives Decls.error_interface Decls.error_variants
+  = Some vs_error_shape.
+Proof. exact DeclTie.error_decl_tie. Qed.
+Print Assumptions C05_standard_error_declaration_tie.
+
+Example C05_declaration_tie_nonvacuous :
+  DeclTie.interp_struct SUnit ["Serialize"; "Deserialize"]%string []
+    [("parameters", "Option<Params>", [("skip_serializing_if", "Option::is_none")]);
+     ("continues", "Option<bool>", [])]%string <> Some (reply_shape SUnit)
+  /\ DeclTie.interp_struct SUnit ["Serialize"; "Deserialize"]%string
+       [("deny_unknown_fields", "")]%string Decls.reply_fields = None
+  /\ DeclTie.interp_fields SUnit [("x", "u8", [])]%string = None.
+Proof. exact DeclTie.interp_rejects_unknown_attribute. Qed.
